@@ -137,9 +137,7 @@ def main(argv=None):
         ev, st, bad, _, _ = H.run_model(run, v, cases, 'c11', per_file=max(8, len(cases) // 16))
         evaluated += ev
         steps += st
-        for idx, step in bad[:12]:
-            ops = cases[idx][0]
-            run.disagree('heap', version=v, step=step, ops=ops[:step + 1], first_difference=H.explain(v, ops, step))
+        H.report_disagreements(run, v, cases, bad)
     run.log('model side: %d histories / %d steps replayed, %d disagreements' % (evaluated, steps, len(run.disagreements)))
     run.finish({
         'evaluations': stats['read_probes'] + stats['chain_writes_checked'],
@@ -319,4 +317,5 @@ def replay(run):
 
 
 if __name__ == '__main__':
-    main()
+    from common import run_guarded
+    run_guarded('C11', main)
